@@ -9,12 +9,21 @@ Local Open Scope string_scope.
 Lemma all_writers_ok : forallb writer_ok writers = true.
 Proof. vm_compute. reflexivity. Qed.
 
-Lemma writers_rename_based_or_excepted :
-  forall w, In w writers -> rename_based w = true \/ excepted w = true.
+Lemma writers_classified :
+  forall w, In w writers -> rename_based w = true \/ excepted w = true \/ other_file w = true.
 Proof.
   intros w Hw. pose proof (proj1 (forallb_forall _ _) all_writers_ok w Hw) as H.
-  unfold writer_ok in H. apply orb_prop in H. exact H.
+  unfold writer_ok in H. apply orb_prop in H. destruct H as [H|H]; [|auto].
+  apply orb_prop in H. tauto.
 Qed.
+
+Lemma writers_counts : counts_ok writers = true.
+Proof. vm_compute. reflexivity. Qed.
+
+(** nothing the scanner could not resolve *)
+Lemma writers_resolved :
+  forallb (fun w => match w_kind w with KUnresolved => false | _ => true end) writers = true.
+Proof. vm_compute. reflexivity. Qed.
 
 Lemma expected_sites_present : sites_present writers = true.
 Proof. vm_compute. reflexivity. Qed.
